@@ -8,7 +8,7 @@
 //	seq <gasLimit> <gasPrice> <chainId> <call>…  a real adaptor (its own Connect) against one endpoint per
 //	                                            outcome column; call = name/args/outcomes, name in
 //	                                            ur|dr|rg|rn|cm|rv, args ';'-separated, outcomes
-//	                                            acc|conn|nonce|revert|funds|other|closed|hdr|connsend
+//	                                            acc|conn|nonce|revert|funds|other|closed|hdr|connsend|lost
 //	sig <sighex>                                Signature.ToBigInt
 //	pk <marshalled G2 hex> [k]                  decodePubKey (k: the point is k·G2, checked against go-ethereum's bn256)
 //	cfg <gasLimit> <gasPrice> <chainId> <op>…   history of gp:<v> | gl:<v> | re | tx:<outcomes> on one adaptor
@@ -356,6 +356,8 @@ func script(e *chaindouble.Endpoint, o string) {
 		e.Script("eth_getBlockByNumber", chaindouble.Outcome{Err: "header not found"})
 	case "connsend":
 		e.Script("eth_sendRawTransaction", chaindouble.Outcome{Drop: true})
+	case "lost": // the endpoint processes and ACCEPTS the transaction, the connection is cut before the reply
+		e.Script("eth_sendRawTransaction", chaindouble.Outcome{DropAfter: true})
 	default:
 		panic("bad outcome " + o)
 	}
@@ -756,12 +758,34 @@ func execSeq(w []string) (res h.Result) {
 					switch o {
 					case "conn":
 						o = "nonce"
-					case "hdr", "connsend":
+					case "hdr", "connsend", "lost":
 						o = "other"
 					}
 					outs[i] = o
 				}
 				res.Oracle = failoverOracle(outs, contacted, nil, true, cerr == nil, cerr, dead)
+			}
+			// "exactly one transaction … never sent again once an endpoint has accepted it": the endpoints that TOOK the
+			// transaction of this one call (accepted it, whether or not the reply reached the client)
+			if res.Oracle == "" {
+				var takers []string
+				lostSeen := false
+				for _, i := range raw {
+					if c.outs[i] == "acc" || c.outs[i] == "lost" {
+						d, tx, _, _ := describeTx(st.RPC[i].RawTxs()[0], st)
+						_ = d
+						takers = append(takers, fmt.Sprintf("endpoint %d nonce %d hash %x", i, tx.Nonce(), tx.Hash().Bytes()[:6]))
+						lostSeen = lostSeen || c.outs[i] == "lost"
+					}
+				}
+				switch {
+				case len(takers) > 1 && lostSeen:
+					res.Oracle = fmt.Sprintf("accepted-reply-lost-resent: one %s call, %d endpoints accepted a transaction: %s", c.name, len(takers), strings.Join(takers, "; "))
+				case len(takers) > 1:
+					res.Oracle = fmt.Sprintf("sent-again-after-accept: %s", strings.Join(takers, "; "))
+				case len(takers) == 1 && lostSeen && cerr != nil:
+					res.Oracle = fmt.Sprintf("accepted-reply-lost-reported-as-failure: %s took the transaction, the caller got %q", takers[0], errKind(cerr))
+				}
 			}
 			// exactly one transaction reaches the chain on success
 			if res.Oracle == "" && cerr == nil {
@@ -783,7 +807,7 @@ func execSeq(w []string) (res h.Result) {
 			}
 		}
 		for _, i := range raw {
-			if c.outs[i] == "acc" {
+			if c.outs[i] == "acc" || c.outs[i] == "lost" {
 				pending[i]++
 				st.RPC[i].SetNonce(pending[i])
 			}
